@@ -81,12 +81,14 @@ def known_crash(case, res):
     return None
 
 
-def l1(out, cfgs, timeout=1500, workers=16):
-    for cfg in cfgs:
-        r = tlc.check_model("MC_Shexer", cfg, workers=workers, timeout=timeout)
-        out.add_l1(cfg, r)
+def l1(out, cfgs, timeout=1500, workers=8):
+    """cfgs: configuration file names of MC_Shexer, or (module, cfg) pairs"""
+    for item in cfgs:
+        module, cfg = ("MC_Shexer", item) if isinstance(item, str) else item
+        r = tlc.check_model(module, cfg, workers=workers, timeout=timeout)
+        out.add_l1("%s/%s" % (module, cfg), r)
         for inv in r["violated"]:
-            out.violation("L1.%s" % inv, {"model": cfg}, "design-level counterexample in spec/MC_Shexer (%s):\n%s" % (cfg, r["out"][-1800:]))
+            out.violation("L1.%s" % inv, {"model": cfg}, "design-level counterexample in spec/%s (%s):\n%s" % (module, cfg, r["out"][-1800:]))
 
 
 # ---------------------------------------------------------------------------------------------------
@@ -186,6 +188,8 @@ def pinned_cases(out, prop, want, mine, crash_is_mine=False):
         return
     cases = []
     for p in pins:
+        if "case" not in p:
+            continue
         c = dict(p["case"])
         c["id"] = "pin:" + p["file"]
         cases.append(c)
